@@ -37,7 +37,7 @@ ASSUME = [
     "(65536) by its full payload; per configuration the bounds maxframes/nfull/big are listed in per_configuration",
     "segmentations: ALL 2^(n-1) for streams of n <= nfull bytes; longer ones: one piece, every single cut (streams over 4096 "
     "bytes: every cut within +-1 of a frame/header/payload boundary and of 16384, 32768), 1-byte trickle (n <= 64, and a "
-    "single 65539-byte frame where bigtrickle=1), all pairs of cuts (n <= 24) where pairs=1; the receiver calls xcm_receive "
+    "single 65539-byte frame where bigtrickle=1), one piece + trickle only where cuts=0; the receiver calls xcm_receive "
     "until nothing more arrives after every segment; endings: close together with the last segment, close after the last "
     "drain, silence (TLS: close_notify+close, abrupt close, silence)",
     "payload bytes are patterned, not arbitrary: the framing code never branches on payload bytes (data independence)",
@@ -75,20 +75,21 @@ def _tiers(tier):
         T.append(("tp=tls,role=server,fam=ctfrag,maxframes=1", 6.5))
         T.append(("tp=btls,role=client,fam=ctfrag,maxframes=0", 6.5))
     else:
-        T.append(("tp=tcp,role=server,fam=frames,nfull=12,maxframes=3,big=3,pairs=1,bigtrickle=1", 0.4))
-        T.append(("tp=tcp,role=client,fam=frames,nfull=12,maxframes=2,big=2,bigtrickle=1", 0.4))
-        T.append(("tp=btcp,role=server,fam=frames,nfull=12,maxframes=2,big=2", 0.4))
+        T.append(("tp=tcp,role=server,fam=frames,nfull=12,maxframes=3,big=3,bigtrickle=1", 0.4))
+        T.append(("tp=tcp,role=client,fam=frames,nfull=11,maxframes=2,big=2,bigtrickle=1", 0.4))
+        T.append(("tp=btcp,role=server,fam=frames,nfull=11,maxframes=2,big=2", 0.4))
         T.append(("tp=btcp,role=client,fam=frames,nfull=10,maxframes=2,big=1", 0.4))
-        T.append(("tp=tls,role=server,fam=frames,nfull=9,maxframes=3,big=2,bigtrickle=1", 6.5))
-        T.append(("tp=tls,role=client,fam=frames,nfull=9,maxframes=2,big=1", 6.5))
-        T.append(("tp=btls,role=server,fam=frames,nfull=8,maxframes=2,big=1", 6.5))
-        T.append(("tp=btls,role=client,fam=frames,nfull=8,maxframes=2,big=1", 6.5))
+        T.append(("tp=tls,role=server,fam=frames,nfull=8,maxframes=2,big=2,bigtrickle=1", 6.5))
+        T.append(("tp=tls,role=server,fam=frames,nfull=5,maxframes=3,big=0,cuts=0", 6.5))
+        T.append(("tp=tls,role=client,fam=frames,nfull=8,maxframes=2,big=1", 6.5))
+        T.append(("tp=btls,role=server,fam=frames,nfull=6,maxframes=2,big=1", 6.5))
+        T.append(("tp=btls,role=client,fam=frames,nfull=6,maxframes=2,big=1", 6.5))
         for tp in ("tls", "btls"):
             for role in ("server", "client"):
                 T.append(("tp=%s,role=%s,fam=hsmut,mutset=1" % (tp, role), 3.0))
                 T.append(("tp=%s,role=%s,fam=prehs,nfull=8,maxframes=2,big=2" % (tp, role), 1.0))
                 T.append(("tp=%s,role=%s,fam=rawinj,maxframes=2,big=2" % (tp, role), 6.5))
-        T.append(("tp=tls,role=server,fam=prehs,nfull=10,maxframes=3,big=2", 1.0))
+        T.append(("tp=tls,role=server,fam=prehs,nfull=5,maxframes=3,big=0,cuts=0", 1.0))
         T.append(("tp=tls,role=server,fam=ctfrag,maxframes=2", 6.5))
         T.append(("tp=tls,role=client,fam=ctfrag,maxframes=1", 6.5))
         T.append(("tp=btls,role=server,fam=ctfrag,maxframes=1", 6.5))
